@@ -21,3 +21,47 @@ package postprocessor
 //@   requires stats.globalStats != nil && stats.globalStats.PostprocessorRoutines != nil
 //@   loop for invariant [gauge-live] @C17 adds(stats.globalStats.PostprocessorRoutines.count) == old(adds(stats.globalStats.PostprocessorRoutines.count)) + 1 && stats.globalStats != nil && stats.globalStats.PostprocessorRoutines != nil // C17: worker gauges equal the number of live workers
 //@   ensures [gauge-balanced] @C17 adds(stats.globalStats.PostprocessorRoutines.count) == old(adds(stats.globalStats.PostprocessorRoutines.count)) // C17: zero after stop
+
+// ---------------------------------------------------------------------------------------
+// C06: bounded work per seed
+
+//@ pred isRedirectCode(c int) = c == 300 || c == 301 || c == 302 || c == 303 || c == 307 || c == 308
+
+//@ func isStatusCodeRedirect
+//@   property C06
+//@   modifies nothing
+//@   ensures [def] result == isRedirectCode(statusCode)
+
+//@ func shouldExtractOutlinks
+//@   property C06
+//@   modifies nothing
+//@   requires item != nil && item.url != nil && config.config != nil
+//@   ensures [hops] result == ((domainscrawl.dcOn() || item.url.Hops < config.config.MaxHops) && item.url.body != nil) // C06: outlinks that do not match --domains-crawl are queued only from pages with fewer than --max-hops hops
+
+//@ func shouldExtractAssets
+//@   property C06
+//@   modifies nothing
+//@   requires item != nil && item.url != nil && config.config != nil
+//@   ensures [def] result == (!config.config.DisableAssetsCapture && item.url.body != nil)
+
+//@ func closeBody
+//@   opaque
+//@   modifies models.URL::body
+
+// extractAssets / extractOutlinks: dispatch to the extractors (opaque here, see C19/C07); what
+// C06 needs is the hop bookkeeping of what they return.
+//@ func extractAssets
+//@   property C06
+//@   requires item != nil && item.url != nil
+//@   loop range invariant [asset-hops] true
+//@   ensures [asset-hops] result2 == nil ==> forall(j, 0, len(result0), result0[j] != nil && result0[j].Hops == item.url.Hops) // C06: assets inherit the page's hops
+//@   ensures [outlink-hops] result2 == nil ==> forall(j, 0, len(result1), result1[j] != nil ==> result1[j].Hops == item.url.Hops + 1)
+
+//@ func postprocessItem
+//@   property C06
+//@   requires item != nil && item.url != nil && models.wfNode(item) && config.config != nil && models.dwrDef()
+//@   requires [archived-has-response] item.status == models.ItemArchived ==> item.url.response != nil
+//@   ensures [not-archived] old(item.status) != models.ItemArchived ==> item.status == old(item.status) && len(item.children) == old(len(item.children)) && len(result) == 0
+//@   ensures [redirect-max] old(item.status == models.ItemArchived && isRedirectCode(item.url.response.StatusCode) && item.url.Redirects >= config.config.MaxRedirect) ==> item.status == models.ItemCompleted && len(item.children) == 0 && len(result) == 0 // C06: at most --max-redirect redirects are followed in a chain
+//@   ensures [redirect-one] old(item.status == models.ItemArchived && isRedirectCode(item.url.response.StatusCode) && item.url.Redirects < config.config.MaxRedirect) ==> item.status == models.ItemGotRedirected && len(item.children) == 1 && item.children[0].url.Redirects == old(item.url.Redirects) + 1 && item.children[0].url.Hops == old(item.url.Hops) && item.children[0].status == models.ItemFresh && len(result) == 0 // C06: redirect targets inherit the page's hops
+//@   ensures [depth] old(item.status == models.ItemArchived && !isRedirectCode(item.url.response.StatusCode) && !domainscrawl.dcOn() && models.dwr(item) > 2) ==> item.status == models.ItemCompleted && len(item.children) == 0 && len(result) == 0 // C06: embedded resources are fetched at most three levels below the page
